@@ -424,7 +424,7 @@ class SScal:
         return z3.eq(self.re, z3.RealVal(1)) and self.is_real()
 
     def __mul__(self, o):
-        if isinstance(o, (AMat, BCol, BRow)) or hasattr(o, "_matmat") or type(o).__name__ in ("CF", "HProd", "Mask"):
+        if isinstance(o, (AMat, BCol, BRow)) or hasattr(o, "_matmat") or type(o).__name__ in ("CF", "HProd", "Mask", "IArr"):
             return NotImplemented
         o = SScal.lift(o)
         if getattr(self, "dimn", False) and getattr(o, "dimn", False):
@@ -751,6 +751,35 @@ class AMat:
         if z3.eq(s.re, z3.RealVal(1)) and s.is_real():
             return r
         return r * o
+
+    def _inplace(self, what):
+        # FRAME: an in-place update is only allowed on an array this function allocated itself
+        if not self.fresh:
+            CTX.require(z3.BoolVal(False), f"in-place {what} on an array that may alias the caller's operand or an operator's payload")
+
+    def __iadd__(self, o):
+        self._inplace("+=")
+        r = self + o
+        r.fresh = True
+        return r
+
+    def __isub__(self, o):
+        self._inplace("-=")
+        r = self - o
+        r.fresh = True
+        return r
+
+    def __imul__(self, o):
+        self._inplace("*=")
+        r = self * o
+        r.fresh = True
+        return r
+
+    def __itruediv__(self, o):
+        self._inplace("/=")
+        r = self / o
+        r.fresh = True
+        return r
 
     def __matmul__(self, o):
         if hasattr(o, "_matmat") and not isinstance(o, AMat):
